@@ -3,6 +3,8 @@ import Driver.Sut.VClock
 import Driver.Sut.Lattice
 import Driver.Sut.Orswot
 import Driver.Sut.MVReg
+import Driver.Sut.Ident
+import Driver.Sut.GList
 /-! Line-protocol driver: reads a command script on stdin, prints the model's canonical observation
 (and, after ` | `, the value of the specification functions) for every command. -/
 open Driver
@@ -13,6 +15,8 @@ def newCase (ty : String) (n : Nat) : Option Machine :=
   | "orswot" => some (Machine.mk' orswotOps n)
   | "mvreg" => some (Machine.mk' (mvregOps true) n)
   | "mvreg_raw" => some (Machine.mk' (mvregOps false) n)
+  | "glist" => some (Machine.mk' glistOps n)
+  | "list" => some (Machine.mk' listOps n)
   | "gcounter" => some (Machine.mk' gcounterOps n)
   | "pncounter" => some (Machine.mk' pncounterOps n)
   | "gset" => some (Machine.mk' gsetOps n)
@@ -27,7 +31,13 @@ def pureCmd (f : String) (args : List String) : String :=
     match specVClock f args with
     | some sp => "r=" ++ r ++ " | r=" ++ sp
     | none => "r=" ++ r
-  | none => "badcmd"
+  | none =>
+    match pureIdent f args with
+    | some r => "r=" ++ r
+    | none =>
+      match pureList f args with
+      | some r => "r=" ++ r
+      | none => "badcmd"
 
 def step (cur : Option Machine) (line : String) : Option Machine × String :=
   let toks := (line.trimAscii.toString.splitOn " ").filter (· ≠ "")
